@@ -145,6 +145,10 @@ func (s Script) Bytes() []byte {
 		return []byte(head + "printf '%s\\n' '{\"name\": '\nexit 0\n")
 	case "exit1":
 		return []byte(head + "exit 1\n")
+	case "trailing": // complete metadata followed by something that is not white space: not a JSON reply
+		return []byte(head + "printf '%s\n' '" + s.json() + "'\nprintf '%s\n' '{\"more\":1}'\nexit 0\n")
+	case "trailing-brace":
+		return []byte(head + "printf '%s\n' '" + s.json() + " }'\nexit 0\n")
 	}
 	return []byte(head + "printf '%s\\n' '" + s.json() + "'\nexit 0\n")
 }
@@ -181,6 +185,27 @@ type Src struct {
 	Second   string   `json:"second,omitempty"`  // dir: second file named notation-<other>: exec | nonexec
 	Subdirs  []Subdir `json:"subdirs,omitempty"` // dir
 	Links    []string `json:"links,omitempty"`   // dir: top-level symlinks
+	// Spelling: how the path of the source is written in the call - "" canonical, "trailing-slash"
+	// (directories), "double-slash", "dot-segment", "up-and-down"; all name the same file or directory
+	Spelling string `json:"spelling,omitempty"`
+}
+
+// spell rewrites a clean absolute path into another spelling of the same path.
+func spell(p, how string, isDir bool) string {
+	d, b := filepath.Dir(p), filepath.Base(p)
+	switch how {
+	case "trailing-slash":
+		if isDir {
+			return p + "/"
+		}
+	case "double-slash":
+		return d + "//" + b
+	case "dot-segment":
+		return d + "/./" + b
+	case "up-and-down":
+		return d + "/" + b + "/../" + b
+	}
+	return p
 }
 
 const srcDirName = "pkg" // base name of every source directory; sorts after "notation-*"
